@@ -7,6 +7,7 @@
   Non-mutation of the caller's transaction is checked on the Go side on every case (deep snapshot
   before/after) and by C18; in the functional model the transaction is an immutable value.
 -/
+import BtcVerif.Proofs.HeapSigHash
 import BtcVerif.Proofs.SigHash
 import BtcVerif.Gen.Facts
 
@@ -73,6 +74,70 @@ theorem clone_structure_pinned :
     (["make", "copy"].all Gen.Facts.tx_Output_Clone_calls.contains) = true ∧
     (["make", "copy"].all Gen.Facts.tx_Witness_Clone_calls.contains) = true ∧
     Gen.Facts.tx_Tx_SignatureHashForWitnessInput_assigns = [] := by decide
+
+/-! ### the transaction is never changed: the pointer-level model (Model/Heap.lean)
+
+  `clone_structure_pinned` above pins, from the source, which fields `SignatureHashForInput` assigns
+  and that `Clone` duplicates every input, output and witness object. `Model.Heap.legacyRun` performs
+  exactly those assignments on a heap of objects behind addresses. The theorems below say that no
+  object that existed before the call is changed by it — for every heap, transaction, index, script
+  code and flag combination, nil pointers and aliased pointers (two inputs sharing one object)
+  included — and that the depth of the copy is what makes this true. -/
+
+open BtcVerif.Model.Heap in
+/-- frame: every pre-existing input and output object is unchanged -/
+theorem legacy_never_changes_existing_objects (h : Heap) (tx : TxObj) (nIn : Nat) (sc : Bytes)
+    (none single acp : Bool) :
+    (∀ a, a < h.ins.length → (legacyRun h tx nIn sc none single acp).1.ins[a]? = h.ins[a]?) ∧
+    (∀ a, a < h.outs.length → (legacyRun h tx nIn sc none single acp).1.outs[a]? = h.outs[a]?) :=
+  legacyRun_frame h tx nIn sc none single acp
+
+open BtcVerif.Model.Heap in
+/-- the transaction the caller's pointer denotes is the same before and after -/
+theorem legacy_never_changes_the_transaction (h : Heap) (tx : TxObj) (nIn : Nat) (sc : Bytes)
+    (none single acp : Bool)
+    (hin : ∀ a ∈ tx.inputs, a < h.ins.length) (hout : ∀ a ∈ tx.outputs, a < h.outs.length) :
+    readTx (legacyRun h tx nIn sc none single acp).1 tx = readTx h tx :=
+  legacyRun_readTx h tx nIn sc none single acp hin hout
+
+open BtcVerif.Model.Heap in
+/-- the depth of the copy is necessary: sharing the output objects (seeded change C03-B) lets
+    SIGHASH_SINGLE overwrite the caller's outputs -/
+theorem legacy_shallow_copy_changes_the_transaction :
+    ∃ (h : Heap) (tx : TxObj),
+      (legacyRunWith cloneOutsShallow h tx 1 [] false true false).1.outs[0]? ≠ h.outs[0]? :=
+  shallow_clone_breaks_frame
+
+open BtcVerif.Model.Heap in
+/-- refinement: read back through its pointers, the working copy after the surgery is the modified
+    transaction (script code installed, other inputs blanked or dropped, outputs dropped / cut / blanked) -/
+theorem legacy_working_copy_is_modified_transaction (h : Heap) (tx : TxObj) (nIn : Nat) (sc : Bytes)
+    (none single acp : Bool) (is : List TxIn) (os : List TxOut) (hr : readTx h tx = some (is, os)) :
+    readTx (legacyRun h tx nIn sc none single acp).1 (legacyRun h tx nIn sc none single acp).2
+      = some (insV is nIn sc (none || single) acp, outsV os nIn none single) :=
+  legacyRun_refines h tx nIn sc none single acp is os hr
+
+open BtcVerif.Model.Heap BtcVerif.Gen.Guards in
+/-- … and that modified transaction is the one the value-level model serialises and hashes (the model
+    of `legacy_preimage_eq`, which the correspondence runs against the code) -/
+theorem legacy_model_hashes_the_working_copy (tx : Tx) (nIn : Nat) (script sc : Bytes) (ht : Nat) (vin : TxIn)
+    (hone : tx_Tx_SignatureHashForInput_0 (nInput := nIn) (len_tx_Inputs := tx.inputs.length)
+      (sigHashSingle := tx_Tx_SignatureHashForInput_asg1 ht) (len_tx_Outputs := tx.outputs.length) = false)
+    (hs : stripOpCode script opCodeSeparator = .ok sc) (hv : tx.inputs[nIn]? = some vin) :
+    legacyPre tx nIn script ht =
+      (match encTx { tx with
+          inputs := insV tx.inputs nIn sc (tx_Tx_SignatureHashForInput_asg0 ht || tx_Tx_SignatureHashForInput_asg1 ht)
+                      (tx_Tx_SignatureHashForInput_asg2 ht),
+          outputs := outsV tx.outputs nIn (tx_Tx_SignatureHashForInput_asg0 ht) (tx_Tx_SignatureHashForInput_asg1 ht),
+          witnesses := Option.none } false with
+       | .ok bs => .ok (.preimage (bs ++ leBytes 4 ht))
+       | .err => .err
+       | .panic => .panic) :=
+  legacyPre_uses_surgery tx nIn script sc ht vin hone hs hv
+
+/-- non-vacuity: two inputs that share one object, one nil output pointer -/
+example : (Model.Heap.legacyRun ⟨[default], [⟨1, []⟩]⟩ ⟨1, [0, 0], [0, 7], false, 0⟩ 1 [0x51] false true false).1.ins.length = 3 := by
+  decide
 
 /-! non-vacuity: SIGHASH_SINGLE|ANYONECANPAY on input 1 of a two-input, two-output transaction -/
 example : Spec.legacyIsOne ⟨1, [default, default], [default, default], none, 0⟩ 1 0x83 = false := by decide
